@@ -104,7 +104,10 @@ class PyInterp(Interp):
                 if isinstance(cur, list) and isinstance(s.op, ast.Add) and isinstance(val, (list, tuple)):
                     cur.extend(val)
                 else:
-                    env[s.target.id] = self.eval(ast.BinOp(left=ast.Name(s.target.id, ast.Load()), op=s.op, right=s.value), env)
+                    # the right-hand side has been evaluated (once: it may have side effects such as list.pop)
+                    env2 = dict(env)
+                    env2["__aug_rhs__"] = val
+                    env[s.target.id] = self.eval(ast.BinOp(left=ast.Name(s.target.id, ast.Load()), op=s.op, right=ast.Name("__aug_rhs__", ast.Load())), env2)
             else:
                 super().block([s], env, f)
 
